@@ -368,6 +368,9 @@ class Gen:
         self.n = 0
         self.helpers = helpers
         self.bools = set()
+        self.exprs = {}          # name -> (op, a, b, tainted) of every generated Binary (for duplicates)
+        self.prefer = None       # a freshly duplicated name that the next consumers should use
+        self.prefer_left = 0
 
     def cond(self, scope, out):
         """A boolean-valued condition (MIR reachable from source only branches on 0/1 values):
@@ -400,6 +403,9 @@ class Gen:
     def operand(self, scope, allow_tainted=True, lit_ok=True):
         r = self.rng
         cands = [v for v, t in scope if allow_tainted or not t]
+        if self.prefer_left > 0 and self.prefer in cands and r.chance(2, 3):
+            self.prefer_left -= 1
+            return self.prefer
         if cands and (not lit_ok or r.chance(3, 4)):
             return r.pick(cands)
         return self.lit()
@@ -440,16 +446,96 @@ class Gen:
             return ["bin", n, op, a, b], False
         return ["bin", n, op, a, b], True
 
+    def dup_of(self, scope):
+        """re-emits a Binary that is available at this point under a fresh name (what LVN/CSE remove)"""
+        r = self.rng
+        cands = [v for v, _ in scope if v in self.exprs]
+        if not cands:
+            return None
+        o = r.pick(cands)
+        op, a, b, taint = self.exprs[o]
+        n = self.fresh("u")
+        if o in self.bools:
+            self.bools.add(n)
+        self.exprs[n] = (op, a, b, taint)
+        return ["bin", n, op, a, b], taint
+
+    def dup_cluster(self, scope, out, depth):
+        """a duplicate computation whose result feeds a consuming position: call argument, operand,
+        condition, if/else final assignment, break value, loop initial/loop value, return value"""
+        r = self.rng
+        kind = r.weighted([("straight", 4), ("iffinal", 3), ("sif", 2), ("loopbreak", 4 if depth < 2 else 0), ("prefer", 4)])
+        if kind == "loopbreak":
+            i, ni, t1, t2, cc, res = self.fresh("i"), self.fresh("n"), self.fresh("t"), self.fresh("u"), self.fresh("c"), self.fresh("r")
+            form = r.pick([("mul", i, i), ("mul", i, str(r.range(2, 5))), ("shl", i, "1"), ("xor", i, "-1")])
+            if form[0] == "xor":          # decreasing in i: compare with `lt`
+                cmpop, lim = "lt", str(-r.range(4, 30))
+            else:
+                cmpop, lim = r.pick(["gt", "ge"]), str(r.range(3, 60))
+            inner = [["bin", t2, form[0], form[1], form[2]]]
+            if r.chance(1, 2):
+                inner.append(["call", "print", [t2], "_"])
+            inner.append(["brk", t2])
+            body = [["bin", t1, form[0], form[1], form[2]], ["bin", cc, cmpop, t1, lim], ["sif", cc, "0", inner],
+                    ["call", "print", [i], "_"], ["bin", ni, "add", i, str(r.range(1, 2))]]
+            self.bools.add(cc)
+            out.append(["while", [[i, str(r.range(0, 3)), ni]], body, res])
+            scope.append((res, True))
+            return
+        d = self.dup_of(scope)
+        if d is None:
+            s, taint = self.binary(scope)
+            self.exprs[s[1]] = (s[2], s[3], s[4], taint)
+            out.append(s); scope.append((s[1], taint))
+            return
+        st, taint = d
+        n = st[1]
+        if kind == "straight":
+            out.append(st); scope.append((n, taint))
+            c = r.below(3)
+            if c == 0 or not self.helpers:
+                out.append(["call", "print", [n], "_"])
+            elif c == 1:
+                x = self.fresh()
+                out.append(["call", f"f{r.range(1, self.helpers)}", [n, self.lit()] if not taint else [self.lit(), self.lit()], x])
+                scope.append((x, True))
+            if taint or True:
+                x = self.fresh()
+                out.append(["bin", x, r.pick(["xor", "mul", "and"]), n, self.operand(scope)])
+                self.exprs[x] = (out[-1][2], out[-1][3], out[-1][4], True)
+                scope.append((x, True))
+        elif kind == "iffinal":
+            cond, sc = self.cond(scope, out)
+            scope[:] = sc
+            f = self.fresh("f")
+            inner = [st] + ([["call", "print", [n], "_"]] if r.chance(1, 2) else [])
+            if r.chance(1, 2):
+                out.append(["if", cond, inner, [], [[f, n, self.lit()]]])
+            else:
+                out.append(["if", cond, [], inner, [[f, self.lit(), n]]])
+            scope.append((f, True))
+        elif kind == "sif":
+            cond, sc = self.cond(scope, out)
+            scope[:] = sc
+            out.append(["sif", cond, str(r.below(2)), [st, ["call", "print", [n], "_"]]])
+        else:
+            out.append(st); scope.append((n, taint))
+            self.prefer, self.prefer_left = n, 3
+
     def block(self, scope, depth, n, variant=None, allow_call=True, no_div=False):
         """returns (stmts, new_scope)"""
         r = self.rng
         out = []
         scope = list(scope)
         for _ in range(n):
-            k = r.weighted([("bin", 10), ("print", 3), ("if", 3 if depth < 2 else 0), ("sif", 1 if depth < 2 else 0),
+            k = r.weighted([("bin", 10), ("dup", 5), ("print", 3), ("if", 3 if depth < 2 else 0), ("sif", 1 if depth < 2 else 0),
                             ("while", 3 if depth < 2 else 0), ("call", 2 if (self.helpers and allow_call) else 0), ("not", 1)])
+            if k == "dup":
+                self.dup_cluster(scope, out, depth)
+                continue
             if k == "bin":
                 s, taint = self.binary(scope, variant, no_div)
+                self.exprs[s[1]] = (s[2], s[3], s[4], taint)
                 out.append(s); scope.append((s[1], taint))
             elif k == "not":
                 cands = [v for v, t in scope if v in self.bools]
@@ -556,7 +642,15 @@ class Gen:
         if "C02-F6" not in self.avoid and r.chance(1, 3):
             body.append(["bin", self.fresh("q"), r.pick(["div", "mod"]), self.operand(scope), r.pick(["p0", "p1"])])
         body.append(["call", "print", [i], "_"])     # an effect that uses `i`: the counter is never eliminable
-        body.append(["bin", nacc, r.pick(["add", "add", "xor", "mul", "sub"]), acc, self.operand(sc)])
+        if r.chance(1, 3):
+            # the loop value is a duplicate of a value computed earlier in the same iteration
+            op_, x_ = r.pick(["xor", "mul", "and"]), self.operand(sc)
+            d1 = self.fresh("d")
+            body.append(["bin", d1, op_, acc, x_])
+            body.append(["call", "print", [d1], "_"])
+            body.append(["bin", nacc, op_, acc, x_])
+        else:
+            body.append(["bin", nacc, r.pick(["add", "add", "xor", "mul", "sub"]), acc, self.operand(sc)])
         body.append(["bin", ni, "add", i, str(step)])
         return ["while", [[i, i0e, ni], [acc, self.operand(scope), nacc]], body, res], res
 
@@ -647,6 +741,10 @@ class Gen:
         scope = [(f"p{k}", False) for k in range(nparams)]
         body, sc = self.block(scope, 0, size, allow_call=(name == "f0"), no_div=(name != "f0" and "C02-F6" in self.avoid))
         ret = self.operand(sc, lit_ok=False)
+        if self.rng.chance(1, 4):
+            d = self.dup_of([x for x in sc if x in [(v, t) for v, t in sc][:len(sc)] and any(st[0] == "bin" and st[1] == x[0] for st in body)])
+            if d is not None:
+                body.append(d[0]); ret = d[0][1]
         return ["fn", name, nparams, body, ret]
 
 
@@ -732,6 +830,25 @@ def gen_source(rng, avoid):
             text = f"  function w{w}({params}, {nparam}acc: int): int =\n    if {names[gi]} {cont} {bnd} {loop_part} else {{ acc }}\n"
         fns.append(text)
         wsig.append((k, gi, strides[gi], lit_bound))
+    # a function whose exit value recomputes the expression of its exit test (and/or logs it first):
+    # after the tail-recursion rewrite the break value is a statement result that duplicates an
+    # available value
+    extra = None
+    if r.chance(2, 3):
+        m, c = r.range(1, 4), r.range(0, 5)
+        e = r.pick(["i * i", f"i * {m} + {c}", f"i * {m}", f"(i + {c}) * {m}", "i * j"])
+        cmp_ = r.pick([">", ">="])
+        log = f"let _ = Process.println(Str.fromInt({e}));\n      " if r.chance(1, 2) else ""
+        step_print = "let _ = Process.println(Str.fromInt(i));\n      " if r.chance(1, 2) else ""
+        if r.chance(1, 2):
+            text = (f"  function e0(i: int, j: int, n: int): int =\n    if {e} {cmp_} n {{\n      {log}{e}\n    }} else {{\n      "
+                    f"{step_print}Main.e0(i + 1, j + 1, n)\n    }}\n")
+        else:
+            neg = {">": "<=", ">=": "<"}[cmp_]
+            text = (f"  function e0(i: int, j: int, n: int): int =\n    if {e} {neg} n {{\n      "
+                    f"{step_print}Main.e0(i + 1, j + 1, n)\n    }} else {{\n      {log}{e}\n    }}\n")
+        fns.append(text)
+        extra = f"Main.e0({r.pick(['0', '1', 'a', '2'])}, {r.pick(['1', '2', 'b', '3'])}, {r.range(3, 90)})"
     # run(a, b): distinct, partly symbolic starting values
     lines = []
     for w, (k, gi, gst, lit_bound) in enumerate(wsig):
@@ -745,6 +862,10 @@ def gen_source(rng, avoid):
         lines.append(f"let r{w} = Main.w{w}({', '.join(starts)}, {barg}{r.range(-2, 2)});")
         lines.append(f"let _ = Process.println(Str.fromInt(r{w}));")
     ret = " + ".join(f"r{w}" for w in range(nw))
+    if extra:
+        lines.append(f"let x0 = {extra};")
+        lines.append("let _ = Process.println(Str.fromInt(x0));")
+        ret += " + x0"
     fns.append("  function run(a: int, b: int): int = {\n    " + "\n    ".join(lines) + f"\n    {ret}\n  }}\n")
     calls = []
     grid = [(0, 0), (1, 2), (-1, 3), (7, -8), (60, 5), (-40, 40), (-7, 1000000), (3, 2000000), (5, -2147483647)]
